@@ -19,6 +19,12 @@ impl<R> ns_::NsReader<R> {
         &&& self.ns_resolver.wf()
         &&& self.ns_resolver.nesting_level as int == self.reader.state.stack().len() + (if self.pending_pop { 1int } else { 0int })
     }
+    /// what `inv` says, for the callers outside this module (the serde event sources, C14)
+    pub(crate) proof fn lemma_inv(&self)
+        requires self.inv()
+        ensures self.reader.inv(), self.ns_resolver.wf(),
+            self.ns_resolver.nesting_level as int == self.reader.state.stack().len() + (if self.pending_pop { 1int } else { 0int }),
+    {}
 }
 
 // ---- namespace resolution (Namespaces in XML 1.1, sections 5 and 6) ----
